@@ -57,8 +57,12 @@ def check(ctx):
                    detail=f"`{norm(st)}`: the new owner is not the task dequeued from the head of _waiters", node=st)
             continue
         fut = u(deq[0][1]["F"])
-        ctx.require_at("R09-b", rel, st, [[f"not {fut}.cancelled()"] + d for d in owner_ok],
-                       instance="hand-off only to a live waiter, by the owner", what="hand-off")
+        # liveness is required where the pair (ownership, wake-up) begins - whichever of the two statements comes first in this
+        # synchronous section (waking the future first is equivalent: set_result only schedules the waiter's resumption)
+        wk = ctx.sites(rel, f"{fut}.set_result($*A)")
+        first = min([st] + [w for w, _ in wk], key=lambda n: (n.lineno, n.col_offset))
+        ctx.require_at("R09-b", rel, first, [[f"not {fut}.cancelled()"]], instance="hand-off only to a live waiter", what="hand-off / wake-up")
+        ctx.require_at("R09-b", rel, st, owner_ok, instance="hand-off only by the owner", what="hand-off")
     for st in clear:
         ctx.require_at("R09-b", rel, st, [["not self._waiters"] + d for d in owner_ok], instance="owner := None only with an empty queue",
                        what="unlock")
@@ -73,8 +77,8 @@ def check(ctx):
         if e == "none":
             return (own + 10, wake)
         if e == "wake":
-            if own != 1:
-                return Bad("waiter woken without ownership having been transferred to it first")
+            if own >= 10:
+                return Bad("a waiter is woken although the lock was marked free")
             return (own, wake + 1)
         return st
 
